@@ -397,3 +397,28 @@ def heredoc_truncations():
         for p in range(len(first), last):
             out.append(text[:p])
     return out
+
+
+def illformed_contexts():
+    """ill-formed expansions put in every context where an expansion is scanned: each source must be rejected"""
+    exp = ["${x", "${", "${}", "${x:-", "${x:-a", "$(", "$(a", "$((", "$((1+", "$((1+2)", "`", "`a", "${x$(}", "$(a ${b)", "${#", "${x%", "${x:-$(a}", "$(a \"b)"]
+    wordonly = ["'a", "\"a", "\"${x\"", "\"$(a\""]
+    wctx = ["echo X", "echo a X", "echo \"X\"", "a=X", "echo ${y:-X}", "echo $(echo X)", "for i in X; do :; done", "case X in a) ;; esac",
+            "case a in X) ;; esac", "echo >X", "f() { echo X; }", "if X; then :; fi", "echo a; X", "! X", "a | X", "( X )", "while X; do :; done",
+            "echo \"a ${y:-X} b\"", "b=1 X"]
+    hctx = ["cat <<E\nX\nE\n", "cat <<E\npre X\nE\n", "cat <<-E\n\tX\n\tE\n", "cat <<'Q' <<E\nq\nQ\nX\nE\n", "cat <<\\Q <<E\nq\nQ\nX\nE\n",
+            "cat <<\"Q\" <<E\nq\nQ\nX\nE\n", "cat <<A <<E\na\nA\nX\nE\n", "cat <<'Q'; cat <<E\nq\nQ\nX\nE\n",
+            "cat <<'Q' | cat <<-E\nq\nQ\n\tX\n\tE\n", "x=$(cat <<'Q' <<E\nq\nQ\nX\nE\n)", "if a <<'Q'; then b <<E; fi\nq\nQ\nX\nE\n",
+            "cat <<E <<'Q'\nX\nE\nq\nQ\n", "cat <<E\n$y X\nE\n", "{ cat <<'Q'; cat <<E; }\nq\nQ\nX\nE\n", "cat <<Q\\Q <<E\nq\nQQ\nX\nE\n"]
+    out = []
+    for x in exp:
+        for c in wctx + hctx:
+            if "`" in x and "`" in c:
+                continue
+            out.append(c.replace("X", x))
+    for x in wordonly:
+        for c in wctx:
+            if '"' in c:
+                continue                      # inside double quotes a single quote is literal and a double quote closes
+            out.append(c.replace("X", x))
+    return out
